@@ -90,6 +90,7 @@ extern int mpt_vprintf(MPT_STRUCT(array) *arr, const char *format, va_list args)
 		used += rval;
 		if (used < size) {
 			base[rval] = '\0';
+			arr->_buf->_used = used;
 			return rval;
 		}
 	}
